@@ -255,6 +255,11 @@ def make_lemma(idx, case, items):
     enc = Enc()
     cls, fn = case["target"]
     obj = case.get("obj")
+    if obj is not None:           # the definition Python's MRO picks for this receiver
+        for K in type(obj).__mro__:
+            if fn in K.__dict__:
+                cls = K.__name__
+                break
     enc_self_plain = "VNone" if obj is None else enc.val(obj)
     selfv = "None" if obj is None else "(Some %s)" % enc_self_plain
     args = "[%s]" % "; ".join(enc.val(a) for a in case.get("args", []))
